@@ -50,8 +50,9 @@ Fixpoint is_prefix (a b : list string) : bool :=
 
 Definition is_nil {A} (l : list A) : bool := match l with [] => true | _ => false end.
 
-(** Judge the observed writes of one stream, read by read.
-    Returns (acceptable, the stream has to have raised). *)
+(** Judge the observed writes of one stream, read by read, write call by write call
+    (the finer judgement; used for the corollaries about the model, whose writes are
+    one call per response).  Returns (acceptable, the stream has to have raised). *)
 Fixpoint judge (ws : list watcher) (B : text) (resp : list bool)
          (chunks : list text) (obs : list (list string)) : bool * bool :=
   match chunks, obs with
@@ -66,9 +67,37 @@ Fixpoint judge (ws : list watcher) (B : text) (resp : list bool)
   | _, _ => (false, false)
   end.
 
+(** The judgement that counts looks at the TEXT that reached the child's stdin during
+    each read (the concatenation of the strings written), not at how many write calls
+    carried it: coalescing a read's responses into one write is not a difference. *)
+Definition flat (l : list string) : string := fold_right String.append EmptyString l.
+
+Fixpoint str_prefix (a b : string) : bool :=
+  match a, b with
+  | EmptyString, _ => true
+  | String x a', String y b' => Ascii.eqb x y && str_prefix a' b'
+  | String _ _, EmptyString => false
+  end.
+
+Definition no_text (l : list string) : bool := String.eqb (flat l) "".
+
+Fixpoint judge_text (ws : list watcher) (B : text) (resp : list bool)
+         (chunks : list text) (obs : list (list string)) : bool * bool :=
+  match chunks, obs with
+  | [], [] => (true, false)
+  | c :: cs, o :: os =>
+      if raises ws resp B c
+      then (str_prefix (flat o) (flat (full_writes ws B c)) && forallb no_text os
+            && Nat.eqb (List.length os) (List.length cs), true)
+      else if String.eqb (flat o) (flat (full_writes ws B c))
+           then judge_text ws (B ++ c) (responded ws resp B c) cs os
+           else (false, false)
+  | _, _ => (false, false)
+  end.
+
 Definition spec_stream (ws : list watcher) (chunks : list text)
            (obs : list (list string)) (obs_raised : bool) : bool :=
-  let '(ok, must_raise) := judge ws [] (map (fun _ => false) ws) chunks obs in
+  let '(ok, must_raise) := judge_text ws [] (map (fun _ => false) ws) chunks obs in
   ok && Bool.eqb must_raise obs_raised.
 
 (** The observations of one thread among those of the whole schedule. *)
